@@ -48,9 +48,9 @@ var c04Partial = map[string]partialSpec{
 
 // frozen exceptions for R2: key = function|callee, value = reason (confirmed by reading)
 var c04PartialAllowed = map[string]string{
-	"excellent/functions.Mean|github.com/shopspring/decimal.Decimal.Div":           "divisor is len(args); Mean is registered with MinArgsCheck(1, Mean) so len(args) >= 1 (rule R3 checks the registration)",
+	"excellent/functions.Mean|github.com/shopspring/decimal.Decimal.Div":                   "divisor is len(args); Mean is registered with MinArgsCheck(1, Mean) so len(args) >= 1 (rule R3 checks the registration)",
 	"excellent/types.newXNumberFromString|github.com/shopspring/decimal.RequireFromString": "argument matched decimalRegexp on the line above (dominating MatchString guard), which admits only digits with an optional sign and point",
-	"flows/routers/cases.testNumber|regexp.MustCompile":                            "pattern is built from the environment's NumberFormat symbols (host configuration, outside C04's quantifier over templates, contexts and arguments), each escaped with a backslash",
+	"flows/routers/cases.testNumber|regexp.MustCompile":                                    "pattern is built from the environment's NumberFormat symbols (host configuration, outside C04's quantifier over templates, contexts and arguments), each escaped with a backslash",
 }
 
 // frozen table for R1: explicit panics reachable from evaluation, with the guard that makes them unreachable
@@ -163,8 +163,10 @@ func checkC04(p *core.Program, r *core.Report) {
 	r.Count("const_offset_string_sites", c04R5(p, r, fns, "R5", c04SliceAllowed))
 
 	// ---------- R6 constant index / slice bound on general slices
+	r.Rule("R7", "every computed index or slice bound x[i], s[i], x[lo:hi] in the evaluation packages is shown, on every path, non-negative and below (bounds: at most) the length of the very value it indexes — by a dominating comparison with len() of that value, a range-loop index over it, len-k / min(len, …) arithmetic — or is listed with the reason")
 	r.Rule("R6", "every constant index or slice bound on a slice in the evaluation packages is within a length established on every path (range analysis over len() comparisons, producers with a known minimum length) or listed")
 	r.Count("const_index_sites", constIndexRule(p, r, fns, "R6", c04IndexAllowed, true))
+	r.Count("variable_index_sites", varIndexRule(p, r, fns, "R7", c04VarIndexAllowed))
 }
 
 func rootFn(f *ssa.Function) *ssa.Function {
@@ -949,8 +951,110 @@ func constIndexRule(p *core.Program, r *core.Report, fns []*ssa.Function, rule s
 
 func canonShort(v ssa.Value) string {
 	s := canon(v)
-	if len(s) > 60 {
-		s = s[:60] + "…"
+	if rs := []rune(s); len(rs) > 60 {
+		s = string(rs[:60]) + "…"
 	}
 	return s
+}
+
+// c04VarIndexAllowed: computed indexes the generic idioms do not prove, each confirmed by reading. key as reported.
+var c04VarIndexAllowed = map[string]string{
+	"excellent/functions.Object/index#3":             "pairs[i+1] in a loop `for i := 0; i < len(pairs); i += 2` entered only when len(pairs)%2 == 0 (the odd case returns an error just above): i is even and below an even length, so i+1 is below it too",
+	"excellent/functions.RemoveFirstWord/low#1":      "s[w1Start+len(words[0]):] where words = extractWords(s): every word is a substring of s, so strings.Index finds it (>= 0) and the end of the match is at most len(s); len(words) >= 2 is tested above",
+	"excellent/functions.RemoveFirstWord/low#2":      "s[w2Start:] where w2Start = strings.Index(rest, words[1]) and words[1] follows words[0] in s: found, so 0 <= w2Start <= len(rest)",
+	"excellent/functions.ReadChars/low#1":            "val.Native()[i:i+3] with i a multiple of 3 below length, length%3 == 0 and length = the number of runes, which never exceeds the number of bytes: 0 <= i < i+3 <= length <= len(bytes)",
+	"excellent/functions.ReadChars/high#1":           "same slice as low#1: i+3 <= length (runes) <= len (bytes)",
+	"excellent/functions.ReadChars/low#2":            "val.Native()[i:i+4] in the length%4 == 0 loop: as low#1 with 4",
+	"excellent/functions.ReadChars/high#2":           "same slice as low#2",
+	"(*excellent.visitor).VisitTextLiteral/high#1":   "value[1:len(value)-1] on the text of a TEXT token: the lexer rule starts and ends with a quote, so len(value) >= 2",
+	"(*excellent.xinput).read/index#1":               "unreadRunes[unreadCount-1] under unreadCount > 0; unreadCount never exceeds the 4 slots (see unread)",
+	"(*excellent.xinput).unread/index#1":             "unreadRunes has 4 slots and the scanner pushes back at most two runes between reads (scanBody: the character after '@' and the '@'; C12/R2 evaluates every such case): 0 <= unreadCount <= 2 < 4",
+	"(*excellent.AnonFunction).Evaluate/index#2":     "args[i] for i ranging over x.Args inside a closure that is only reachable through functions.NumArgsCheck(len(x.Args), fn), which rejects any other number of arguments (checked by R3's wrapper rule)",
+	"(*excellent.ErrorListener).SyntaxError/index#1": "lines[line-1]: ANTLR reports the 1-based line of a token of the very text it was given, and counts lines by the same '\\n' the text is split on",
+	"(*excellent.ErrorListener).SyntaxError/low#1":   "lineOfError[column:…]: ANTLR's column is a 0-based offset inside that line (at most its length, at end of input)",
+	"(*excellent.ErrorListener).SyntaxError/high#1":  "min(column+10, len(lineOfError)) with column >= 0 from ANTLR: between column and the length",
+	"flows/routers/cases.hasPhraseTest/index#2":      "pins[pinIdx]: pinIdx starts at 0 with len(pins) > 0 (tested first), is reset to 0 or incremented, and the loop breaks as soon as it reaches len(pins)",
+	"flows/routers/cases.hasPhraseTest/index#3":      "matches[pinIdx] with matches = make(len(pins)) and the same pinIdx < len(pins) invariant as index#1",
+}
+
+func varIndexRule(p *core.Program, r *core.Report, fns []*ssa.Function, rule string, allowed map[string]string) int {
+	n := 0
+	per := map[string]int{}
+	fwd := forwardedIndexParams(fns)
+	report := func(fn *ssa.Function, site varIdxSite, label string) {
+		n++
+		// keyed by function, kind of use and ordinal in source order: stable under renamings and SSA renumbering
+		what := site.kind
+		if site.measured != "" {
+			what = "forwarded-" + site.kind
+		}
+		k := core.FuncName(rootFn(fn)) + "/" + what
+		per[k]++
+		key := fmt.Sprintf("%s#%d", k, per[k])
+		miss, why := decideVarIdx(site)
+		if miss == "" {
+			r.OK(rule, key, p.Pos(site.instr.Pos()), label+" in range: "+why)
+			return
+		}
+		if reason, ok := allowed[key]; ok {
+			r.OK(rule, key, p.Pos(site.instr.Pos()), "listed: "+reason)
+			return
+		}
+		r.Bad(rule, key, p.Pos(site.instr.Pos()), label+": the computed "+site.kind+" is "+miss+" on every path: an out-of-range value panics the evaluation")
+	}
+	for _, fn := range fns {
+		sites := varIndexSites(fn)
+		sort.SliceStable(sites, func(i, j int) bool { return sites[i].instr.Pos() < sites[j].instr.Pos() })
+		for _, site := range sites {
+			if f, ok := fwd[fn]; ok && site.idx == ssa.Value(fn.Params[f.param]) {
+				r.OK(rule, core.FuncName(fn)+"/forwards-index", p.Pos(site.instr.Pos()), "indexes "+f.measured+" with its parameter unchecked: decided at each call site")
+				continue
+			}
+			report(fn, site, canonShort(site.base)+"["+site.kind+" "+canonShort(site.idx)+"]")
+		}
+		// calls of index-forwarding functions are index sites of the caller
+		for _, cs := range core.Calls(fn, false) {
+			callee := cs.Common().StaticCallee()
+			f, ok := fwd[callee]
+			if !ok || f.param >= len(cs.Common().Args) {
+				continue
+			}
+			idx := cs.Common().Args[f.param]
+			measured := strings.ReplaceAll(f.measured, "recv", canon(cs.Common().Args[0]))
+			if k, isC := core.ConstInt(idx); isC {
+				// a constant index: the dominating conditions must give the length a lower bound above it
+				var lb int64
+				for _, ce := range core.ControllingConds(cs.Instr.Block()) {
+					bo, ok := ce.Cond.(*ssa.BinOp)
+					if !ok {
+						continue
+					}
+					c, isConst := core.ConstInt(bo.Y)
+					if !isConst || lenExpr(bo.X) != measured {
+						continue
+					}
+					switch {
+					case (bo.Op == token.LSS && !ce.Taken) || (bo.Op == token.GEQ && ce.Taken) || (bo.Op == token.EQL && ce.Taken):
+						lb = max(lb, c)
+					case (bo.Op == token.LEQ && !ce.Taken) || (bo.Op == token.GTR && ce.Taken):
+						lb = max(lb, c+1)
+					case (bo.Op == token.EQL && !ce.Taken && c == 0) || (bo.Op == token.NEQ && ce.Taken && c == 0):
+						lb = max(lb, 1)
+					}
+				}
+				n++
+				key := core.FuncName(rootFn(fn)) + "/" + callee.Name() + "(" + canonShort(cs.Common().Args[0]) + ", " + fmt.Sprint(k) + ")"
+				if reason, ok := allowed[key]; ok {
+					r.OK(rule, key, p.Pos(cs.Pos()), "listed: "+reason)
+				} else {
+					r.Check(k >= 0 && lb >= k+1, rule, key, p.Pos(cs.Pos()), fmt.Sprintf("length >= %d on every path", lb),
+						fmt.Sprintf("element %d is read although only length >= %d is established on every path: an out-of-range value panics the evaluation", k, lb))
+				}
+				continue
+			}
+			site := varIdxSite{fn: fn, instr: cs.Instr, base: cs.Common().Args[0], idx: idx, kind: "index", measured: measured}
+			report(fn, site, callee.Name()+"("+canonShort(cs.Common().Args[0])+", "+canonShort(idx)+")")
+		}
+	}
+	return n
 }
